@@ -7,7 +7,7 @@ from .common import *
 
 META = {
     "level": "other",
-    "explanation": "Typestate check with a symbolic stream-position algebra (sa/pos.py) over every acyclic path of the five classes, including the exceptional edges out of the inner parse: (R1) Peek._parse ends at its entry position on every exit -- return, swallowed ConstructError, re-raised ExplicitError and any other exception (the seek sits in a finally that covers the inner parse); (R2) Pointer._parse/_build tell first, seek to the target with whence 2 exactly when the offset is negative, process the inner construct on that same stream and end at the entry position; (R3) Select._parse takes the position before each alternative, ends a failed alternative at that position, does not seek after a successful one and returns its result; (R4) GreedyRange._parse takes the fallback position in every iteration before the element, ends at that iteration's fallback when the element fails, and appends an element only after it parsed; (R5) Union._parse parses every member from the same start (seek back after each member), records each member's end position under its index and its name between the member's parse and the seek back, and ends at the start or at the recorded end of the selected member; (R6) the generated parse_peek/parse_pointer/build_pointer/parse_union templates satisfy the same contracts (C04 engine).",
+    "explanation": "Typestate check with a symbolic stream-position algebra (sa/pos.py) over every acyclic path of the five classes, including the exceptional edges out of the inner parse: (R1) Peek._parse ends at its entry position on every exit -- return, swallowed ConstructError, re-raised ExplicitError and any other exception (the seek sits in a finally that covers the inner parse); (R2) Pointer._parse/_build tell first, seek to the target with whence 2 exactly when the offset is negative, process the inner construct on that same stream and end at the entry position; (R3) Select._parse takes the position before each alternative, ends a failed alternative at that position, does not seek after a successful one and returns its result; (R4) GreedyRange._parse takes the fallback position in every iteration before the element, ends at that iteration's fallback when the element fails, and appends an element only after it parsed; (R5) Union._parse parses every member from the same start (seek back after each member), records each member's end position under its index and its name between the member's parse and the seek back, and ends at the start or at the recorded end of the selected member; (R6) the generated parse_peek/parse_pointer/build_pointer/parse_union templates satisfy the same contracts (C04 engine). R6 also decides the generation-time index of Union's selected member: an int parsefrom is the index itself, a str parsefrom is looked up in {member.name: position in self.subcons} counted over all members, None selects nothing.",
     "undecided": "Equality of the returned value with the member parsed in isolation (value-level).",
     "trusted_base": ["python ast (3.12)", "sa.summ summariser incl. exceptional edges", "sa.pos position algebra", "stream_* helper semantics (tell/seek/read move the position as named)"],
     "assumptions": ["a sub-construct call on the stream advances it by an unknown non-negative amount and leaves it anywhere if it raises"],
